@@ -16,19 +16,21 @@ T = 'urn:t'
 O = 'urn:o'
 # symbol -> (namespace, local name) of an instance child element
 SYM = {'a': (T, 'a'), 'b': (T, 'b'), 'c': (T, 'c'), 'm': (T, 'm'), 'f': (O, 'f'), 'u': (T, 'u'),
-       'x': (T, 'x'), 'k': (T, 'k')}
+       'x': (T, 'x'), 'k': (T, 'k'), 'z': ('', 'z')}
 # leaf kind -> symbols matched.  'a' is the head of a substitution group with member m and, through the
 # ABSTRACT member n (never usable itself), the second-level member k;
 # w = ##other (lax), W = ##any (lax), t = ##targetNamespace (lax).  u is an undeclared name in the
 # target namespace: only lax wildcards admitting that namespace accept it.
 LEAF = {
-    'a': frozenset('amk'), 'b': frozenset('b'), 'c': frozenset('c'),
-    'w': frozenset('f'), 'W': frozenset('abcmkfux'), 't': frozenset('abcmkux'),
+    'a': frozenset('amk'), 'b': frozenset('b'), 'c': frozenset('c'), 'm': frozenset('m'),
+    'w': frozenset('f'), 'W': frozenset('abcmkfuxz'), 't': frozenset('abcmkux'),
+    # l = ##local (lax), L = 'urn:o ##local' (lax); z is a child element in no namespace
+    'l': frozenset('z'), 'L': frozenset('fz'),
     # local declarations of one name: x and z have type xs:string, y has type xs:int (EDC)
     'x': frozenset('x'), 'y': frozenset('x'), 'z': frozenset('x'),
 }
 LOCAL_TYPE = {'x': 'xs:string', 'y': 'xs:int', 'z': 'xs:string'}
-WILD = frozenset('wWt')
+WILD = frozenset('wWtlL')
 
 
 def occ_s(mn, mx):
@@ -92,6 +94,10 @@ def leaf_xsd(m):
         return '<xs:any namespace="##any" processContents="lax"%s/>' % o
     if k == 't':
         return '<xs:any namespace="##targetNamespace" processContents="lax"%s/>' % o
+    if k == 'l':
+        return '<xs:any namespace="##local" processContents="lax"%s/>' % o
+    if k == 'L':
+        return '<xs:any namespace="%s ##local" processContents="lax"%s/>' % (O, o)
     if k in LOCAL_TYPE:
         return '<xs:element name="x" type="%s"%s/>' % (LOCAL_TYPE[k], o)
     return '<xs:element ref="t:%s"%s/>' % (k, o)
@@ -155,7 +161,7 @@ def schema_text(models, open_content=None):
 
 
 def doc(i, w):
-    kids = ''.join('<o:f/>' if s == 'f' else '<t:%s/>' % s for s in w)
+    kids = ''.join('<o:f/>' if s == 'f' else '<z/>' if s == 'z' else '<t:%s/>' % s for s in w)
     return '<t:r%d xmlns:t="%s" xmlns:o="%s">%s</t:r%d>' % (i, T, O, kids, i)
 
 
@@ -208,6 +214,8 @@ class Auto:
         if m[0] == 'cho':
             nullable, first, last, ok = False, set(), set(), False
             for k, c in enumerate(m[1]):
+                if c[3] == 0:
+                    continue      # a particle with maxOccurs=0 is no component at all: the branch does not exist
                 r = self._occ(c, path + (k,))
                 if r is None:
                     continue
@@ -381,7 +389,7 @@ class Auto:
         return None
 
 
-def includes(D, B, alphabet='abcmfu', maxlen=None):
+def includes(D, B, alphabet='abcmkfuz', maxlen=None):
     """Exact test L(D) <= L(B) for two sequence/choice automata on the product of their subset
     constructions.  Returns None if included, else a shortest word in L(D) - L(B)."""
     if D.all is not None or B.all is not None:
